@@ -82,6 +82,14 @@ def w_model(ctx, rng, idx, param):
     if name == 'rgb_fractal':
         n, L = args
         args = tuple(rgb_matrix(rng, n) for _ in range(3)) + (L,)
+        u = rng.random()
+        if u < 0.25:  # grey-scale fractal: one and the same array object for all primaries
+            args = (args[0], args[0], args[0], L)
+        elif u < 0.45:  # two primaries are one object
+            j, k = (int(v) for v in rng.choice(3, size=2, replace=False))
+            a3 = list(args[:3])
+            a3[k] = a3[j]
+            args = tuple(a3) + (L,)
     # the same constructor is first asked for a neighbouring (larger / other) parameter set in the same process and then for the
     # enumerated one, and once more afterwards: whatever a constructor remembers between calls must not leak into the next result
     alt = alternative(rng, name, param[1])
@@ -96,6 +104,19 @@ def w_model(ctx, rng, idx, param):
         call('models.' + name, fn, *args, prop=P, tags=['model=' + name, 'repeated_call'])
     if idx % 37 == 0:
         ctx.sample({'workload': 'models', 'model': name, 'args': [repr(a)[:60] for a in param[1]]})
+
+
+def w_circuit_history(ctx, rng, idx):
+    """qft / iqft in random order and of random sizes (registers beyond the sizes of the parameter grid included) - this workload runs
+    first in every fresh shard process, so the first circuits built in a process are inverse or forward transforms, small or large"""
+    seq = [(['qft', 'iqft'][int(rng.integers(0, 2))], int(rng.integers(1, 13))) for _ in range(int(rng.integers(2, 5)))]
+    if idx % 2 == 0:
+        seq[0] = (seq[0][0], int(rng.integers(9, 13)))
+    ctx.describe({'model': 'qft/iqft history', 'calls': [list(sq) for sq in seq]})
+    for (name, n) in seq:
+        call('models.' + name, getattr(mdl, name), n, prop=P, tags=['model=' + name, 'history'])
+    if idx < 2:
+        ctx.sample({'workload': 'circuit_history', 'calls': [list(sq) for sq in seq]})
 
 
 def rgb_matrix(rng, n):
@@ -180,6 +201,7 @@ def w_random(ctx, rng, idx):
 
 
 WORKLOADS = [
+    Workload('circuit_history', w_circuit_history, 8, 32),
     Workload('models', w_model, None, None, enum=enum_models),
     Workload('random_parameters', w_random, 100, 1500),
 ]
